@@ -638,7 +638,7 @@ theorem eol_eq (b : Block) (f : Flags) (l : Nat) (st : St) (sp n : Nat)
     (h : st.rd.start + n < st.rd.stop ∨ ¬ st.rd.stop < b.last) (hl : l = st.rd.line) :
     eol b f l st sp n =
       { st with rd := advanceLine b { st.rd with start := st.rd.start + n },
-                kids := eolKids b.src f st.kids sp (st.rd.start + n) } := by
+                kids := eolKids b.src f st.kids sp (st.rd.start + n), escaped := false } := by
   have hrd : (if n != 0 then advance b st.rd n else st.rd) = { st.rd with start := st.rd.start + n } := by
     by_cases hn : n = 0
     · subst hn; simp
@@ -767,7 +767,7 @@ theorem pass_sim {PA PB : Params} {b : Block} (hWF : WF b) (hT : TabRel PA.parse
         refine ⟨_, _, rfl, rfl, ?_, l, rfl⟩
         rw [eol_eq b _ _ a spa na (hcond a na e2 e6) e1.symm, eol_eq b _ _ b' spb nb (hcond b' nb e4 e7) e3.symm]
         refine PassPost.eol (classify l).2 a.rd.start b'.rd.start (stA.rd.start + pre (l.take (classify l).1)) _ _
-          e12 (by omega) e13 (by omega) (by omega) (fun hlen => hnl hlen) ?_ ?_ e5 ?_ ?_
+          e12 (by omega) e13 (by omega) (by omega) (fun hlen => hnl hlen) ?_ ?_ rfl ?_ ?_
         · show advanceLine b ⟨a.rd.line, a.rd.start + na, a.rd.stop⟩ = _
           rw [e1, e2, e6]; simp
         · show advanceLine b ⟨b'.rd.line, b'.rd.start + nb, b'.rd.stop⟩ = advanceLine b ⟨a.rd.line, a.rd.start + na, a.rd.stop⟩
